@@ -451,11 +451,27 @@ func runC12(cx *Ctx, r *Report) {
 	// G10: the oracle import replays values through the trimming writer, so the run-time
 	// trims must keep the store within the feed's window (rule shared with C17)
 	cx.oracleTrimRule(r, collectEvents(cx, r, "oracle", "msg", "callback"), "G10-window-kept-at-run-time")
+	// (token only: in the other modules a derived entry is legitimately conditional on the
+	// record's state - only running pools and open contracts are queued)
+	cx.derivedWriteGuards(r, []string{"token"}, "G13-derived-write-guard")
+	cx.exportFilterRule(r, mods, "G15-export-filter")
+	{
+		var ents []Entry
+		for _, e := range cx.EntriesOf("genesis") {
+			if e.Name == "InitGenesis" {
+				ents = append(ents, e)
+			}
+		}
+		if n := cx.crossedFieldsRule(r, ents, "G14-import-fields-not-crossed"); n < 5 {
+			r.toolErr("only %d records assembled on import paths were inspected for crossed fields (≥5 confirmed)", n)
+		}
+	}
 	if n := cx.importChecksSelfKeyed(r, mods, "G12-import-check-self-keyed"); n < 2 {
 		r.toolErr("only %d existence checks keyed by a field of the restored record found on import paths (token symbol / min unit confirmed)", n)
 	}
-	if n := cx.importCountersRule(r, mods, "G11-import-counter-counts-all"); n < 1 {
-		r.toolErr("no counting import counter found (mt's token sequence confirmed)")
+	if n := cx.importCountersRule(r, mods, "G11-import-counter-counts-all"); n == 0 {
+		// (the counters may equally be restored from list lengths; then there is nothing to count)
+		r.ok("G11-import-counter-counts-all", "scan", "", "no id counter is rebuilt by counting inside an import loop")
 	}
 	if n := cx.importRebuildRule(r, mods, "G8-derived-coexecuted"); n < 4 {
 		r.toolErr("only %d record/derived pairs found in import loops (≥4 confirmed)", n)
@@ -1898,6 +1914,323 @@ func (cx *Ctx) importChecksSelfKeyed(r *Report, mods []string, rule string) int 
 				seen[key] = true
 				n++
 				r.check(len(same) > 0, rule, key, rd.ev.Pos(cx), "the existence check under "+rd.ev.Prefix[0]+" looks at the key (field "+rf+") the restored record itself occupies", "while restoring a record InitGenesis checks "+rd.ev.Prefix[0]+" under the record's field "+rf+", but the record itself is stored there under its field "+strings.Join(uniq(other), "/")+": whether an exported record is accepted depends on which other record was restored before it, and the store-ordered export of a reachable state can be refused (chain "+rd.ev.Fr.String()+")")
+			}
+		}
+	}
+	return n
+}
+
+// derivedWriteGuards (G13; C10 for the token module): in the function that stores a record
+// and maintains its derived index entries side by side, an index entry may be skipped only
+// for a reason found in ITS OWN key material (no contract: no contract index entry). An
+// early return or branch on something else (no owner) that also skips the entry of another
+// index leaves the record without that entry: lookups through the index (the EVM hook's
+// contract -> token resolution) then miss an existing record.
+func (cx *Ctx) derivedWriteGuards(r *Report, mods []string, rule string) int {
+	n := 0
+	for _, F := range cx.P.AllFuncs {
+		if F.Blocks == nil || !isIrismodFunc(F) || !isConsensusCode(cx, F) || cx.isDoubleFunc(F) {
+			continue
+		}
+		m := moduleOf(funcPkgPath(F))
+		if !contains(mods, m) || len(c12Derived[m]) == 0 {
+			continue
+		}
+		// the sibling call sites of F and the prefixes each one's callee subtree sets
+		type sib struct {
+			ci  ssa.CallInstruction
+			pxs map[string]bool
+		}
+		var sibs []sib
+		for _, b := range F.Blocks {
+			for _, ins := range b.Instrs {
+				ci, ok := ins.(ssa.CallInstruction)
+				if !ok {
+					continue
+				}
+				pxs := map[string]bool{}
+				if k := cx.classifyCall(ci); k == "store.set" {
+					for _, px := range cx.storeKeyPrefix(ci, k) {
+						pxs[px] = true
+					}
+				}
+				for _, e := range cx.calleesOf(ci) {
+					if e.Kind == "dynamic" || e.Kind == "invoke" {
+						continue
+					}
+					for _, g := range cx.reachableCS([]*ssa.Function{e.Callee}).Order {
+						if g.Blocks == nil || !isIrismodFunc(g) {
+							continue
+						}
+						for _, p := range cx.primsOf(g) {
+							if p.Kind == "store.set" {
+								for _, px := range p.Prefix {
+									pxs[px] = true
+								}
+							}
+						}
+					}
+				}
+				if len(pxs) > 0 {
+					sibs = append(sibs, sib{ci, pxs})
+				}
+			}
+		}
+		if len(sibs) < 2 {
+			continue
+		}
+		// a sibling that writes a non-derived (primary) prefix of the module must exist
+		primary := false
+		for _, s := range sibs {
+			for px := range s.pxs {
+				if ownPrefix(px, nil, m) && !contains(c12Derived[m], px) && !isParamsPrefix(px) {
+					primary = true
+				}
+			}
+		}
+		if !primary {
+			continue
+		}
+		for _, s := range sibs {
+			onlyDerived := len(s.pxs) > 0
+			var dpx string
+			for px := range s.pxs {
+				if !contains(c12Derived[m], px) {
+					onlyDerived = false
+				}
+				dpx = px
+			}
+			if !onlyDerived || len(s.pxs) != 1 {
+				continue
+			}
+			args := map[string]bool{}
+			for _, a := range s.ci.Common().Args {
+				if e := pureExpr(a, 0); e != "" {
+					args[e] = true
+				}
+			}
+			var ownKey func(v ssa.Value, d int) bool
+			ownKey = func(v ssa.Value, d int) bool {
+				if d > 6 {
+					return false
+				}
+				if _, isC := v.(*ssa.Const); isC {
+					return true
+				}
+				if e := pureExpr(v, 0); e != "" && args[e] && !strings.HasPrefix(e, "call@") {
+					return true
+				}
+				switch x := v.(type) {
+				case *ssa.BinOp:
+					return ownKey(x.X, d+1) && ownKey(x.Y, d+1)
+				case *ssa.UnOp:
+					if x.Op != token.MUL {
+						return ownKey(x.X, d+1)
+					}
+				case *ssa.Call:
+					all := len(x.Common().Args) > 0
+					for _, a := range x.Common().Args {
+						if !ownKey(a, d+1) {
+							all = false
+						}
+					}
+					return all
+				case *ssa.Convert:
+					return ownKey(x.X, d+1)
+				}
+				return false
+			}
+			n++
+			bad := ""
+			succ := map[*ssa.BasicBlock]bool{}
+			for _, b := range successExitBlocks(F) {
+				succ[b] = true
+			}
+			for _, df := range dominatingFacts(s.ci.Block()) {
+				if ownKey(df.Cond, 0) || df.If == nil {
+					continue
+				}
+				// only a branch whose OTHER side can still end successfully skips the entry; a
+				// side that can only fail (validation, error propagation) stores nothing at all
+				ib := df.If.Block()
+				skips := false
+				for i, sc := range ib.Succs {
+					if (i == 0) == df.Holds {
+						continue // the side the write is on
+					}
+					seen := map[*ssa.BasicBlock]bool{}
+					q := []*ssa.BasicBlock{sc}
+					for len(q) > 0 {
+						x := q[0]
+						q = q[1:]
+						if seen[x] || x == s.ci.Block() {
+							continue
+						}
+						seen[x] = true
+						if succ[x] {
+							skips = true
+							break
+						}
+						q = append(q, x.Succs...)
+					}
+				}
+				if skips {
+					bad = cx.P.Pos(ib.Instrs[len(ib.Instrs)-1].Pos())
+					if bad == "" || strings.HasPrefix(bad, "-") || strings.HasPrefix(bad, "?") {
+						bad = cx.P.Pos(s.ci.Pos()) + " (enclosing branch)"
+					}
+				}
+			}
+			key := m + "|" + dpx + "|" + shortFn(F)
+			r.check(bad == "", rule, key, cx.P.Pos(s.ci.Pos()), "the entry under "+dpx+" is written unless its own key material is missing", "in "+shortFn(F)+" the derived entry under "+dpx+" is written only under the condition at "+bad+", which is not about that entry's own key: a record stored on the other path has no entry in this index, and lookups through the index miss it")
+		}
+	}
+	return n
+}
+
+// crossedFieldsRule (G14; C14 for nft): in a record assembled from another record X, two
+// fields that take each other's namesake (MintRestricted: X.UpdateRestricted,
+// UpdateRestricted: X.MintRestricted) are crossed - positional arguments of the same type
+// passed in the wrong order. After an export/import round trip (or the message that builds
+// the record) the two settings have traded places.
+func (cx *Ctx) crossedFieldsRule(r *Report, entries []Entry, rule string) int {
+	n := 0
+	seen := map[string]bool{}
+	cx.forEachEvent(entries, nil, func(e *Entry, w *Walker, ev *Event) {
+		if !(ev.Kind == "store.set" || strings.HasPrefix(ev.Kind, "nft.")) {
+			return
+		}
+		for _, a := range ev.Args {
+			var walk func(t *Term)
+			walk = func(t *Term) {
+				if t == nil {
+					return
+				}
+				if t.Op == "struct" {
+					type src struct{ base, field string }
+					from := map[string]src{}
+					for i := 0; i+1 < len(t.Args); i += 2 {
+						v := t.Args[i+1]
+						if v.Op == "field" && len(v.Args) == 1 {
+							from[t.Args[i].Name] = src{v.Args[0].LooseString(), v.Name}
+						}
+					}
+					key := entryKey(e) + "|" + t.Name
+					if !seen[key] {
+						seen[key] = true
+						n++
+						var crossed []string
+						for f, s := range from {
+							if s.field == f {
+								continue
+							}
+							if o, ok := from[s.field]; ok && o.base == s.base && o.field == f && f < s.field {
+								crossed = append(crossed, f+" ⇄ "+s.field)
+							}
+						}
+						sort.Strings(crossed)
+						r.check(len(crossed) == 0, rule, key, ev.Pos(cx), "no two fields of the assembled "+t.Name+" take each other's namesake from the source record", "the "+t.Name+" assembled on chain "+ev.Fr.String()+" takes "+strings.Join(crossed, ", ")+" from each other's namesake in the source record: same-typed positional arguments were passed in the wrong order, so the two settings trade places")
+					}
+				}
+				for _, x := range t.Args {
+					walk(x)
+				}
+			}
+			walk(a)
+		}
+	})
+	return n
+}
+
+// exportFilters (G15): the conditions under which ExportGenesis adds a record to the
+// exported lists. Every such condition drops durable objects from the export, so the set
+// is closed: the conditions found on the unchanged tree were confirmed against what each
+// module documents as dropped (closed HTLCs), and a new one is reported.
+var c12ExportFilters = map[string][]string{
+	"htlc": {"(‹HTLC›.State == 0)"}, // only open contracts are durable (completed / refunded ones are history)
+}
+
+func (cx *Ctx) exportFilterRule(r *Report, mods []string, rule string) int {
+	n := 0
+	for _, m := range mods {
+		var ex []*ssa.Function
+		for _, e := range cx.entriesOfModule(m, "genesis") {
+			if e.Name == "ExportGenesis" {
+				ex = append(ex, e.Fn)
+			}
+		}
+		for _, G := range cx.reachableCS(ex).Order {
+			if G.Blocks == nil || !isIrismodFunc(G) || moduleOf(funcPkgPath(G)) != m {
+				continue
+			}
+			for _, b := range G.Blocks {
+				for _, ins := range b.Instrs {
+					c, ok := ins.(*ssa.Call)
+					if !ok {
+						continue
+					}
+					if bi, isB := c.Common().Value.(*ssa.Builtin); !isB || bi.Name() != "append" {
+						continue
+					}
+					// appends of records (not of bytes) inside a loop or an iteration callback
+					if sl, ok := c.Type().Underlying().(*types.Slice); ok {
+						if bt, isB := sl.Elem().Underlying().(*types.Basic); isB && bt.Kind() == types.Byte {
+							continue
+						}
+					}
+					if !inLoop(b) && G.Parent() == nil {
+						continue
+					}
+					for _, df := range dominatingFacts(b) {
+						// loop control (index < len) is not a filter
+						if bo, isBin := df.Cond.(*ssa.BinOp); isBin {
+							if _, isPhi := bo.X.(*ssa.Phi); isPhi {
+								continue
+							}
+						}
+						if cl, isCall := df.Cond.(*ssa.Call); isCall && cl.Common().IsInvoke() && cl.Common().Method.Name() == "Valid" {
+							continue
+						}
+						if _, isNext := df.Cond.(*ssa.Extract); isNext {
+							continue
+						}
+						if bo, isBin := df.Cond.(*ssa.BinOp); isBin && (isNilConst(bo.X) || isNilConst(bo.Y)) {
+							if isErrorType(bo.X.Type()) || isErrorType(bo.Y.Type()) {
+								continue // an index entry whose record cannot be loaded is skipped: not a filter on records
+							}
+						}
+						ct := newTerms(cx).Of(df.Cond, &Frame{Fn: G})
+						// a filter looks at the record: the condition selects a field of a value that
+						// is not the keeper / context / a plain parameter flag
+						if findSub(ct, func(t *Term) bool {
+							return t.Op == "field" && len(t.Args) == 1 && t.Args[0].Op != "keeper" && t.Args[0].Op != "ctx" && !strings.HasPrefix(t.Args[0].LooseString(), "keeper")
+						}) == nil {
+							continue
+						}
+						cs := ct.LooseString()
+						if strings.Contains(cs, "len(") {
+							continue // loop control
+						}
+						pol := ""
+						if !df.Holds {
+							pol = "¬"
+						}
+						desc := pol + cs
+						// one spelling per meaning: ¬(a != b) ≡ (a == b), ¬(a == b) ≡ (a != b)
+						if pol != "" && strings.Contains(cs, " != ") {
+							desc = strings.Replace(cs, " != ", " == ", 1)
+						} else if pol != "" && strings.Contains(cs, " == ") {
+							desc = strings.Replace(cs, " == ", " != ", 1)
+						}
+						n++
+						key := m + "|" + shortFn(G) + "|" + desc
+						if contains(c12ExportFilters[m], desc) {
+							r.ok(rule, key, cx.P.Pos(c.Pos()), "export filter "+desc+" is the documented one")
+						} else {
+							r.violate(rule, key, cx.P.Pos(c.Pos()), "ExportGenesis of module "+m+" adds a record to the export only under "+desc+" (in "+shortFn(G)+"): objects for which the condition fails are silently dropped from the exported state - they, and everything that refers to them (escrowed coins, supply counters), do not survive the export/import round trip")
+						}
+					}
+				}
 			}
 		}
 	}
